@@ -1,8 +1,9 @@
 """C12 - point and line location (soundness half).  Rules DOM, HALFOPEN, PRED."""
 import ast
-from ..core import AnalysisError, norm, dotted, call_name, walk_no_nested, parent_map
+from ..core import rel, AnalysisError, norm, dotted, call_name, walk_no_nested, parent_map
 from ..formula import compare, check_return
 from .pred_common import rule_pred
+from .. import roles
 
 LEVEL = 'other'
 EXPLANATION = (
@@ -178,6 +179,31 @@ def rule_dom(run):
                              'or containing both end points' % (colv, doms), where=ct.where(c))
             else:
                 run.unknown(key, 'guards %s not recognised as the crossing test' % [t for t in doms if t not in weak], where=ct.where(c))
+    # corner clips: dropped below one thousandth of the clipped column's *longest side* (the property's own tolerance)
+    k_tol = 'mulgrid.column_track :: clip tolerance = longest side of the column x 1e-3'
+    cmpn = [n for n in ast.walk(ct.node) if isinstance(n, ast.Compare) and rel(n) is not None and
+            any(isinstance(c, ast.Call) and call_name(c) == 'abs' for c in ast.walk(n))]
+    tolv = [v for nm, v, st in roles.assignments(ct.node) if isinstance(v, ast.Constant) and v.value == 1e-3]
+    if len(cmpn) == 1 and tolv:
+        small, strict, big = rel(cmpn[0])
+        bound = small if not any(isinstance(c, ast.Call) and call_name(c) == 'abs' for c in ast.walk(small)) else big
+        if isinstance(bound, ast.Name):
+            d = [v for nm, v, st in roles.assignments(ct.node) if nm == bound.id]
+            bound = d[0] if len(d) == 1 else bound
+        tolname = [nm for nm, v, st in roles.assignments(ct.node) if isinstance(v, ast.Constant) and v.value == 1e-3][0]
+        colv = [x.value.id for x in ast.walk(bound) if isinstance(x, ast.Attribute) and isinstance(x.value, ast.Name)] if isinstance(bound, ast.AST) else []
+        r = 'incomparable'
+        for cv in sorted(set(colv)) or ['col']:
+            r2 = compare(bound, 'max(%s.side_lengths) * %s' % (cv, tolname))
+            if r2 == 'equal': r = 'equal'
+        if r == 'equal': run.ok(k_tol, norm(bound), where=ct.where(cmpn[0]))
+        elif not any(isinstance(x, ast.Attribute) and x.attr == 'side_lengths' for x in ast.walk(bound)) and \
+                any(isinstance(x, ast.Name) and x.id == tolname for x in ast.walk(bound)):
+            run.violated(k_tol, 'the clip tolerance is `%s`, not a thousandth of the longest side of the clipped column: for columns that are not '
+                         'axis-aligned rectangles another length (bounding-box extent, ...) keeps or drops clips the property says otherwise' % norm(bound),
+                         where=ct.where(cmpn[0]))
+        else: run.unknown(k_tol, 'tolerance `%s`' % norm(bound), where=ct.where(cmpn[0]))
+    else: run.unknown(k_tol, 'clip-length comparison not found', where=ct.where())
     pts = [n for n in walk_no_nested(ct.node) if isinstance(n, ast.Assign) and norm(n.targets[0]) == 'pts' and isinstance(n.value, ast.Call)]
     if pts:
         # the polygon argument, with a local alias (poly = col.polygon) resolved
@@ -265,7 +291,9 @@ def rule_cacheinv(run):
     run.rule('CACHEINV', 'a value memoised from node positions (lazy `if self.A is None: self.A = ...`) is reset by every function that '
              'writes node positions (translate, rotate, optimisation, snapping)', floor=1)
     from .cacheinv import cacheinv_rule
-    cacheinv_rule(run, 'mulgrids')
+    # memos that point / line location consults: anything kept on columns, nodes, the quadtree or by the search functions
+    cacheinv_rule(run, 'mulgrids', only=lambda m: (m.cls is not None and m.cls.name in ('column', 'node', 'quadtree')) or
+                  m.name in ('column_containing_point', 'column_track', 'block_name_containing_point', 'block_contains_point', 'column_quadtree'))
 
 
 def check(run):
